@@ -27,10 +27,25 @@ type Lock struct {
 }
 
 type KnownFinding struct {
-	Property   string `json:"property"`
-	Obligation string `json:"obligation"`
-	What       string `json:"what"`
-	Witness    string `json:"witness"`
+	Property   string   `json:"property"`
+	Obligation string   `json:"obligation"`
+	What       string   `json:"what"`
+	Witness    string   `json:"witness"`
+	Also       []string `json:"also,omitempty"` // further properties the same failing obligation counts against
+}
+
+// concerns: the finding is reported (KNOWN-FINDING line) under this property; under any other
+// property that merely shares the function, the obligation is out of that property's claim.
+func (k *KnownFinding) concerns(prop string) bool {
+	if k.Property == prop {
+		return true
+	}
+	for _, a := range k.Also {
+		if a == prop {
+			return true
+		}
+	}
+	return false
 }
 
 type KnownFile struct {
@@ -260,7 +275,7 @@ func runCheck(repo, verif, prop, tier, fnFilter string, relock, verbose bool) in
 	knownEarly := readKnown(verif)
 	work := make(chan *Obligation)
 	var swg sync.WaitGroup
-	for w := 0; w < 8; w++ {
+	for w := 0; w < 10; w++ {
 		swg.Add(1)
 		go func() {
 			defer swg.Done()
@@ -275,12 +290,12 @@ func runCheck(repo, verif, prop, tier, fnFilter string, relock, verbose bool) in
 					script = o.Goal // lemma: full script
 				}
 				if o.Kind == "vacuity" {
-					o.Res = solve(script, 5, false)
+					o.Res = solve(script, 2, false)
 					if o.Res.Status == "unsat" && o.BeforeReach != "" {
 						// infeasible after the call: vacuous only if the path was feasible before it
 						b := *o
 						b.Upto, b.Reach = o.BeforeUpto, o.BeforeReach
-						rb := solve(o.vc.script(&b, false), 5, false)
+						rb := solve(o.vc.script(&b, false), 2, false)
 						if rb.Status == "unsat" {
 							o.Res.Status = "unknown" // dead path, not a contradiction introduced by the callee contract
 							o.Res.Output = "path infeasible already before the call"
@@ -324,7 +339,11 @@ func runCheck(repo, verif, prop, tier, fnFilter string, relock, verbose bool) in
 			continue
 		}
 		if kf := known.find(prop, o.Name); kf != nil {
-			knownHit = append(knownHit, o)
+			if kf.concerns(prop) {
+				knownHit = append(knownHit, o)
+			} else {
+				open = append(open, o)
+			}
 			continue
 		}
 		if le, okl := lock.Obligations[o.Name]; okl && le.Status == "open" && !relock {
